@@ -265,14 +265,38 @@ class TensorflowConnector(BuiltinConnector):
     def powm(self, matrix, power):
         return self._funm(matrix, partial(self.np.power, x2=power))
 
+    def _sqrtm_of_hermitian(self, matrix):
+        # NOTE: The gradient of `tf.linalg.sqrtm` is wrong for complex matrices, so
+        # the square root of a positive definite Hermitian matrix is calculated from
+        # its eigendecomposition. Its gradient X solves the Sylvester equation
+        # P X + X P = upstream, which has no singularity at degenerate eigenvalues.
+        tf = self._tf
+
+        @tf.custom_gradient
+        def sqrtm_of_hermitian(H):
+            eigenvalues, V = tf.linalg.eigh(H)
+            sqrt_eigenvalues = tf.sqrt(tf.cast(tf.math.real(eigenvalues), H.dtype))
+            V_adjoint = tf.linalg.adjoint(V)
+
+            P = V @ tf.linalg.diag(sqrt_eigenvalues) @ V_adjoint
+
+            def grad(upstream):
+                denominator = sqrt_eigenvalues[:, None] + sqrt_eigenvalues[None, :]
+
+                return V @ ((V_adjoint @ upstream @ V) / denominator) @ V_adjoint
+
+            return P, grad
+
+        return sqrtm_of_hermitian(matrix)
+
     def polar(self, matrix, side="right"):
         adjoint = self.np.conj(matrix).T
 
         if side == "right":
-            P = self._tf.linalg.sqrtm(adjoint @ matrix)
+            P = self._sqrtm_of_hermitian(adjoint @ matrix)
             U = matrix @ self._tf.linalg.inv(P)
         elif side == "left":
-            P = self._tf.linalg.sqrtm(matrix @ adjoint)
+            P = self._sqrtm_of_hermitian(matrix @ adjoint)
             U = self._tf.linalg.inv(P) @ matrix
 
         return U, P
